@@ -355,14 +355,16 @@ func timeouts(t *testing.T, rep *ev.Report) {
 				if nreq == 3 {
 					desc = fmt.Sprintf("idle-timeout I=%v proto=h2 after 2 served requests and one request cancelled by RST_STREAM while in flight", I)
 				}
+				I := I
+				opts := func() bubble.StackOpts { return binaryStack("10s", I.String()) }
+				if I < 0 {
+					I = -I
+					rt := I.String()
+					opts = func() bubble.StackOpts { return binaryStackR("10s", "0s", rt) }
+					desc = strings.Replace(desc, "I=-", "I=", 1) + " (idle flag 0s, read timeout " + rt + ")"
+				}
 				res := bubble.Run(t, func() {
-					opts := binaryStack("10s", I.String())
-					if I < 0 {
-						I = -I
-						opts = binaryStackR("10s", "0s", I.String())
-						desc += " (idle flag 0s, read timeout " + I.String() + ")"
-					}
-					st := bubble.NewStack(opts)
+					st := bubble.NewStack(opts())
 					defer st.Shutdown()
 					h := faults.HelloH1
 					if proto == "h2" {
